@@ -1,5 +1,5 @@
 (* GENERATED from /repo on every run by translate/c14_facts.py -- do not edit *)
-From SF Require Import Base.Val C14.Writer.
+From SF Require Import Base.Val C14.Writer C14.Builder.
 Open Scope string_scope.
 Definition sat_plan (table_exists : bool) (arg_mode self_mode : option string) : sat_action :=
   (let mode_1 := (py_or_str arg_mode (py_str_opt self_mode)) in (if (String.eqb mode_1 "append"%string) then (if (orb (negb true) table_exists) then SatInsert else (if (String.eqb mode_1 "ignore"%string) then (let exists_2 := true in (if (String.eqb mode_1 "overwrite"%string) then (let replace_3 := true in (SatCreate exists_2 replace_3)) else (SatCreate exists_2 false))) else (if (String.eqb mode_1 "overwrite"%string) then (let replace_4 := true in (SatCreate false replace_4)) else (SatCreate false false)))) else (if (String.eqb mode_1 "ignore"%string) then (let exists_5 := true in (if (String.eqb mode_1 "overwrite"%string) then (let replace_6 := true in (SatCreate exists_5 replace_6)) else (SatCreate exists_5 false))) else (if (String.eqb mode_1 "overwrite"%string) then (let replace_7 := true in (SatCreate false replace_7)) else (SatCreate false false))))).
@@ -13,4 +13,8 @@ Definition add_if_absent : bool := false.
 Definition byname_source : byname_src := ByEngine.
 Definition cleans_new_path_debris : bool := true.
 Definition gen_cfg : cfg := mkCfg sat_plan validate_mode after_validate path_mode add_if_absent byname_source cleans_new_path_debris.
+Definition b_mode (w : wflags) (arg : option string) : wflags := mkW arg (w_by_name w) (w_format w).
+Definition b_byname (w : wflags) : wflags := mkW (w_mode w) true (w_format w).
+Definition b_format (w : wflags) (arg : string) : wflags := mkW (w_mode w) (w_by_name w) (Some arg).
+Definition gen_bcfg : bcfg := mkB b_mode b_byname b_format.
 
